@@ -100,7 +100,9 @@ class A(Adapter):
                 continue
             w = max(j for _, j in cells) + 1
             for x in range(C - w + 1):  # the piece lies within the columns
-                hi[r, x] = not any(occ[i, x + j] for i, j in cells)  # it can enter at the top
+                # it can enter at the top: the piece comes from above the grid, so every cell of it needs a free column
+                # above it as well (a foot cannot pass through a filled cell of the top row into a hollow underneath)
+                hi[r, x] = not any(occ[:i + 1, x + j].any() for i, j in cells)
                 lo[r, x] = not occ[:4, x:x + w].any()  # the entry rows above the landing columns are empty
         return lo, hi
 
